@@ -3,7 +3,7 @@
 (* The BondMachine instruction set, encoding half (C03, used by C01/C16).  *)
 (*                                                                         *)
 (* An architecture is a record                                             *)
-(*   [rsize, R, N, M, L, O, ops, ws]                                       *)
+(*   [rsize, R, N, M, L, O, ops, ws, mode]                                 *)
 (* (register size, register-index bits, inputs, outputs, RAM address bits, *)
 (* ROM address bits, the opcode list in the order of the Op slice, and the *)
 (* WordSize override, 0 = automatic).  Every opcode has a FORMAT: the list *)
@@ -62,14 +62,17 @@ Fmt ==
   [o \in {"cmpv"} |-> <<"in">>] @@
   [o \in {"sicv2"} |-> <<"reg", "in", "in">>] @@
   [o \in {"r2o", "r2owa", "r2owaa"} |-> FRO] @@
-  \* ja / jcmpa address the RAM only in vn/hy modes; in "ha" mode (the one modelled) their
-  \* location field is a ROM address, as coded in op_ja.go / op_jcmpa.go
-  [o \in {"j", "jc", "jcmpl", "jcmpo", "jo", "saj", "ja", "jcmpa"} |-> FO] @@
+  \* "loc": a program location whose width depends on the execution mode (ha: ROM address bits,
+  \* vn: RAM address bits, hy: the larger of the two), as coded in op_j.go and its siblings
+  [o \in {"j", "jcmpl", "jcmpo", "jo", "saj", "ja", "jcmpa"} |-> <<"loc">>] @@
+  [o \in {"jc"} |-> FO] @@
   [o \in {"jgt0f", "jz", "ro2r"} |-> FRRom] @@
   [o \in {"m2r", "r2m"} |-> FRRam] @@
   [o \in {"rset"} |-> <<"reg", "imm">>]
 
 KnownOps == DOMAIN Fmt
+
+LocBits(a) == IF a.mode = "ha" THEN a.O ELSE IF a.mode = "vn" THEN a.L ELSE (IF a.O > a.L THEN a.O ELSE a.L)
 
 Width(a, kind) ==
   CASE kind = "reg" -> a.R
@@ -78,6 +81,7 @@ Width(a, kind) ==
     [] kind = "rom" -> a.O
     [] kind = "ram" -> a.L
     [] kind = "imm" -> a.rsize
+    [] kind = "loc" -> LocBits(a)
 
 \* an operand fits iff it is below Limit
 Limit(a, kind) ==
@@ -87,11 +91,19 @@ Limit(a, kind) ==
     [] kind = "rom" -> Pow2(a.O)
     [] kind = "ram" -> Pow2(a.L)
     [] kind = "imm" -> Pow2(a.rsize)
+    [] kind = "loc" -> Pow2(LocBits(a))
 
 RECURSIVE SumW(_, _, _)
 SumW(a, f, i) == IF i > Len(f) THEN 0 ELSE Width(a, f[i]) + SumW(a, f, i + 1)
 
-InstrLen(a, op) == OpBits(a) + SumW(a, Fmt[op], 1)
+\* jo / jcmpo jump to ROM locations and are coded for the ha and hy modes only; ja / jcmpa jump to
+\* RAM locations and are coded for vn and hy only.  In the other mode their declared length is 0
+\* (Op_get_instruction_len falls through): they are not instructions of such an architecture.
+ModeOK(a, op) ==
+  /\ (op \in {"jo", "jcmpo"} => a.mode \in {"ha", "hy"})
+  /\ (op \in {"ja", "jcmpa"} => a.mode \in {"vn", "hy"})
+
+InstrLen(a, op) == IF ModeOK(a, op) THEN OpBits(a) + SumW(a, Fmt[op], 1) ELSE 0
 
 RECURSIVE MaxLen(_, _)
 MaxLen(a, i) == IF i > Len(a.ops) THEN 1
@@ -99,7 +111,7 @@ MaxLen(a, i) == IF i > Len(a.ops) THEN 1
 
 MaxWord(a) == a.mw
 
-\* base = [rsize, R, N, M, L, O, ops]; extra = 0 for the automatic word size, otherwise the
+\* base = [rsize, R, N, M, L, O, ops, mode]; extra = 0 for the automatic word size, otherwise the
 \* WordSize override is MaxLen + extra
 MkArch(base, extra) ==
   LET a1 == base @@ [opbits |-> BitsFor(Len(base.ops)), inbits |-> BitsFor(base.N), outbits |-> BitsFor(base.M)]
